@@ -1,5 +1,137 @@
-(* C05 placeholder while the proofs are being written *)
-From Coq Require Import NArith List.
-Require Import Bytes RanUe.
-Example c05_placeholder : register_snName [48;49] [48;48;49] = register_snName [48;49] [48;48;49].
-Proof. reflexivity. Qed.
+(* C05 — 5G-AKA: RES* and the NAS key hierarchy equal what the network derives.
+   Statements only; proofs live in Proofs/RanUeProofs.v.  E is ANY function from a key and a block to 16 octets
+   (AES-128 in Milenage), H ANY function from a key and a message to 32 octets (HMAC-SHA-256 in TS 33.220 B.2);
+   Crypto/AES.v and Crypto/SHA256.v when executed.  K / OPc / OP are the hex texts of config.yaml. *)
+From Coq Require Import NArith ZArith List Bool.
+Require Import Bytes BytesLemmas AES SHA256 TS35206 TS33501 Milenage WmnskMilenage Kdf RanUe MilenageProofs RanUeProofs.
+Import ListNotations.
+Open Scope N_scope.
+
+Definition cipher16 (E:bytes -> bytes -> bytes) : Prop := forall k x, length (E k x) = 16%nat.
+Definition mac32 (H:bytes -> bytes -> bytes) : Prop := forall k x, length (H k x) = 32%nat.
+Definition digits (d:bytes) : Prop := forallb is_digit d = true.
+
+(* With an OPc configured: what RegisterUE + DeriveRESstarAndSetKey return / install for a received (RAND, AUTN)
+   is the network-side derivation (TS 35.206 f2-f4, TS 33.501 A.2 with P1 = AUTN[0..5] = SQN xor AK, A.4, A.6,
+   A.7 with the IMSI digits and ABBA 0000, A.8), for MCC of 3 and MNC of 2 or 3 characters and SUPI "imsi-" + 5..15 digits *)
+Theorem c05_keys_are_the_networks :
+  forall E H, cipher16 E -> mac32 H ->
+  forall ks opcs ops k opc rand autn mcc mnc d ea ia,
+  hex_decode ks = Some k -> opcs <> [] -> hex_decode opcs = Some opc ->
+  length k = 16%nat -> length opc = 16%nat -> length rand = 16%nat ->
+  length mcc = 3%nat -> (length mnc = 2%nat \/ length mnc = 3%nat) ->
+  digits d -> (5 <= length d)%nat -> (length d <= 15)%nat -> ea < 256 -> ia < 256 ->
+  register_derive E H (s_imsi_dash ++ d) ea ia ks opcs ops autn rand mnc mcc
+  = ue_of_keys (network_keys E H k opc rand (firstn 6 autn) mcc mnc d ea ia).
+Proof. exact derive_is_network_opc. Qed.
+Print Assumptions c05_keys_are_the_networks.
+
+(* With only OP configured (opc: ""): the same with OPc = E_K(OP) xor OP *)
+Theorem c05_keys_are_the_networks_op_only :
+  forall E H, cipher16 E -> mac32 H ->
+  forall ks ops k op rand autn mcc mnc d ea ia,
+  hex_decode ks = Some k -> hex_decode ops = Some op ->
+  length k = 16%nat -> length op = 16%nat -> length rand = 16%nat ->
+  length mcc = 3%nat -> (length mnc = 2%nat \/ length mnc = 3%nat) ->
+  digits d -> (5 <= length d)%nat -> (length d <= 15)%nat -> ea < 256 -> ia < 256 ->
+  register_derive E H (s_imsi_dash ++ d) ea ia ks [] ops autn rand mnc mcc
+  = ue_of_keys (network_keys E H k (opc_of E k op) rand (firstn 6 autn) mcc mnc d ea ia).
+Proof. exact derive_is_network_op. Qed.
+Print Assumptions c05_keys_are_the_networks_op_only.
+
+(* op_equals_opc: OP-only configuration = configuring the corresponding OPc (whatever OP text accompanies it) *)
+Theorem c05_op_equals_opc :
+  forall E H, cipher16 E -> mac32 H ->
+  forall ks ops opcs ops' k op rand autn mcc mnc d ea ia,
+  hex_decode ks = Some k -> hex_decode ops = Some op -> opcs <> [] -> hex_decode opcs = Some (opc_of E k op) ->
+  length k = 16%nat -> length op = 16%nat -> length rand = 16%nat ->
+  length mcc = 3%nat -> (length mnc = 2%nat \/ length mnc = 3%nat) ->
+  digits d -> (5 <= length d)%nat -> (length d <= 15)%nat -> ea < 256 -> ia < 256 ->
+  register_derive E H (s_imsi_dash ++ d) ea ia ks [] ops autn rand mnc mcc
+  = register_derive E H (s_imsi_dash ++ d) ea ia ks opcs ops' autn rand mnc mcc.
+Proof. exact op_equals_opc. Qed.
+Print Assumptions c05_op_equals_opc.
+
+(* For the AUTN a conformant network builds from its SQN (TS 33.102 6.3.2) the UE holds exactly the keys the
+   network derives from that SQN (A.2: P1 = SQN xor AK) *)
+Theorem c05_keys_for_network_built_autn :
+  forall E H, cipher16 E -> mac32 H ->
+  forall ks opcs ops k opc rand sqn amf mcc mnc d ea ia,
+  hex_decode ks = Some k -> opcs <> [] -> hex_decode opcs = Some opc ->
+  length k = 16%nat -> length opc = 16%nat -> length rand = 16%nat -> length sqn = 6%nat ->
+  length mcc = 3%nat -> (length mnc = 2%nat \/ length mnc = 3%nat) ->
+  digits d -> (5 <= length d)%nat -> (length d <= 15)%nat -> ea < 256 -> ia < 256 ->
+  register_derive E H (s_imsi_dash ++ d) ea ia ks opcs ops (autn E k opc rand sqn amf) rand mnc mcc
+  = ue_of_keys (network_keys_sqn E H k opc rand sqn mcc mnc d ea ia).
+Proof. exact derive_is_network_sqn. Qed.
+Print Assumptions c05_keys_for_network_built_autn.
+
+(* the pieces, each for all inputs: *)
+(* GetKDFValue with L_i = KDFLen(P_i) (uint16 truncation included) is the TS 33.220 B.2 KDF *)
+Theorem c05_kdf_is_ts33220 :
+  forall H key fcs fc p0 p1, hex_decode fcs = Some [fc] ->
+  GetKDFValue H key fcs [p0; KDFLen p0; p1; KDFLen p1] = kdf H key fc [p0; p1] /\
+  GetKDFValue H key fcs [p0; KDFLen p0] = kdf H key fc [p0].
+Proof. intros. split; [apply kdf2|apply kdf1]; assumption. Qed.
+Print Assumptions c05_kdf_is_ts33220.
+
+(* the SN name RegisterUE builds is "5G:mnc<3 digits>.mcc<mcc>.3gppnetwork.org", a 2-character MNC padded with 0 *)
+Theorem c05_sn_name : forall mnc mcc, register_snName mnc mcc = snn mcc mnc.
+Proof. exact register_snName_spec. Qed.
+Print Assumptions c05_sn_name.
+
+(* the regular expression of DerivateKamf yields all the digits of "imsi-" + 5..15 digits *)
+Theorem c05_supi_digits :
+  forall d, digits d -> (5 <= length d)%nat -> (length d <= 15)%nat -> supi_group1 (s_imsi_dash ++ d) = Some d.
+Proof. exact supi_group1_imsi. Qed.
+Print Assumptions c05_supi_digits.
+
+(* the external Milenage library: RES, CK, IK, AK = f2, f3, f4, f5 and RES* = TS 33.501 A.4 *)
+Theorem c05_wmnsk_f2345_is_ts35206 :
+  forall E, cipher16 E -> forall m opc, validateLength m = true -> opc_of_wm E m = WOk opc -> length opc = 16%nat ->
+  length (w_RAND m) = 16%nat ->
+  wF2345 E m = WOk (f2 E (w_K m) opc (w_RAND m), f3 E (w_K m) opc (w_RAND m), f4 E (w_K m) opc (w_RAND m), f5 E (w_K m) opc (w_RAND m)).
+Proof. exact wF2345_spec. Qed.
+Print Assumptions c05_wmnsk_f2345_is_ts35206.
+Theorem c05_wmnsk_resstar_is_ts33501 :
+  forall H, mac32 H -> forall m res ck ik mcc mnc, validateLength m = true ->
+  length mcc = 3%nat -> (length mnc = 2%nat \/ length mnc = 3%nat) ->
+  ComputeRESStar H m res ck ik mcc mnc = WOk (skipn 16 (kdf H (ck ++ ik) 107 [snn mcc mnc; w_RAND m; res])).
+Proof. exact ComputeRESStar_spec. Qed.
+Print Assumptions c05_wmnsk_resstar_is_ts33501.
+
+(* ---- non-vacuity: AES-128 and HMAC-SHA-256 made total satisfy the hypotheses on E and H; with them the shipped
+   src/config.yaml (K, OPc, mcc 001, mnc 01, IMSI 001010000000001, NEA0/NIA2) and RAND/AUTN of TS 35.208 set 1 meet
+   every hypothesis, and the model returns the values the Go code returns (harness `derive`). *)
+Definition aes_t (k x:bytes) : bytes := let y := aes128 k x in if Nat.eqb (length y) 16 then y else repeat 0 16.
+Definition hmac_t (k x:bytes) : bytes := let y := hmac_sha256 k x in if Nat.eqb (length y) 32 then y else repeat 0 32.
+Example c05_primitives_fit : cipher16 aes_t /\ mac32 hmac_t.
+Proof.
+  split; intros k x; [unfold aes_t; generalize (aes128 k x)|unfold hmac_t; generalize (hmac_sha256 k x)]; intro y.
+  - destruct (Nat.eqb (length y) 16) eqn:L; [apply Nat.eqb_eq; exact L|reflexivity].
+  - destruct (Nat.eqb (length y) 32) eqn:L; [apply Nat.eqb_eq; exact L|reflexivity].
+Qed.
+
+Definition conf_k : bytes := [52;54;53;66;53;67;69;56;66;49;57;57;66;52;57;70;65;65;53;70;48;65;50;69;69;50;51;56;65;54;66;67].
+Definition conf_opc : bytes := [69;56;69;68;50;56;57;68;69;66;65;57;53;50;69;52;50;56;51;66;53;52;69;56;56;69;54;49;56;51;67;65].
+Definition conf_imsi : bytes := [48;48;49;48;49;48;48;48;48;48;48;48;48;48;49].
+Definition autn_set1 : bytes := [85;243;40;180;53;119;185;185;74;159;250;195;84;223;175;179].
+Example c05_hypotheses_met_config_yaml :
+  hex_decode conf_k = Some k1 /\ conf_opc <> [] /\
+  hex_decode conf_opc = Some [232;237;40;157;235;169;82;228;40;59;84;232;142;97;131;202] /\
+  digits conf_imsi /\ Nat.leb 5 (length conf_imsi) = true /\ Nat.leb (length conf_imsi) 15 = true /\
+  register_derive aes_t hmac_t (s_imsi_dash ++ conf_imsi) 0 2 conf_k conf_opc conf_opc autn_set1 rnd1 [48;49] [48;48;49]
+  = UeOk {| ue_res_star := [7;62;34;87;149;248;216;180;144;217;43;115;185;5;197;250];
+            ue_kamf := [4;28;118;235;79;189;249;208;178;67;126;40;62;80;198;160;143;149;12;12;178;141;19;113;221;3;109;138;100;142;187;179];
+            ue_knasint := [2;241;137;46;204;32;39;137;126;234;18;43;31;57;38;123];
+            ue_knasenc := [248;153;33;141;133;232;18;23;142;94;99;58;230;226;205;180] |}.
+Proof. repeat split; try discriminate; vm_compute; reflexivity. Qed.
+(* OP-only, 3-digit MNC, 5-digit SUPI, NEA2/NIA1, OP of TS 35.208 set 1 *)
+Example c05_hypotheses_met_op_only :
+  register_derive aes_t hmac_t (s_imsi_dash ++ [50;48;56;57;51]) 2 1 conf_k []
+    [67;68;67;50;48;50;68;53;49;50;51;69;50;48;70;54;50;66;54;68;54;55;54;65;67;55;50;67;66;51;49;56] autn_set1 rnd1 [57;51;48] [50;48;56]
+  = UeOk {| ue_res_star := [72;36;183;56;76;189;22;107;58;153;207;127;69;122;71;137];
+            ue_kamf := [137;126;25;184;52;27;175;58;50;133;241;47;129;113;117;93;32;244;103;15;202;81;101;199;135;113;127;201;222;210;156;27];
+            ue_knasint := [165;250;254;28;13;30;27;6;152;87;232;67;65;171;235;22];
+            ue_knasenc := [189;245;61;209;101;111;6;92;64;194;198;131;143;164;69;70] |}.
+Proof. vm_compute. reflexivity. Qed.
